@@ -1,5 +1,6 @@
 import Cuke.Driver.EvCodec
 import Cuke.Model.SchedMon
+import Cuke.Model.SchedSeq
 /-! `sched.run <cfg> <labels>`: replay a real run log through the scheduler LTS (lenient) and the monitors.
     Output: `Q ; K ; R ; B ; FF ; I ; A ; c03 ; c04 ; c05 ; c06 ; c07 ; c08` (a clean run prints `-` / `ok`). -/
 namespace Cuke.Driver
@@ -85,6 +86,7 @@ def scfgP : P SCfg := do
          builderAfter := baft, cliAfter := caft, customWhich := cw, durTable := tbl, feats }
 
 def showDis (s : SState) (cls : DClass) : String :=
+  -- both layers: the base acceptor's disagreements and those of the lineage layer (Model/SchedSeq.lean)
   let ds := s.dis.filter (fun d => d.cls == cls)
   if ds.isEmpty then "-" else " / ".intercalate (ds.map (fun d => s!"@{d.at_} {d.msg}"))
 
@@ -92,7 +94,9 @@ def handleSchedRun : Toks → Option String :=
   fun ts => runAll (do
     let c ← scfgP
     let ls ← list labelP
-    let s := finalChecks (accept c ls)
+    let n := acceptN c ls
+    -- `n.base = accept c ls` (theorem `SchedSeq.acceptN_base`); the second layer's notes join the base's
+    let s := finalChecks { n.base with dis := n.base.dis ++ n.ndis }
     let none_ : Option String := none
     let iso := isolation c ls
     pure (" ; ".intercalate [
